@@ -7,6 +7,7 @@ SPEC = {
         "cryptography is replaced by null keys and a session that never progresses (the routing code does not depend on it); "
         "the CID generator is an oracle stream supplied by the operations (so collisions are forced); running dry = the new_cid loop diverges (reported as a panic outcome)",
         "Incoming buffer limits (10 MiB / 100 MiB, max_incoming 65536) are modelled but not reached by the generated histories; Retry is not exercised",
+        "zero-length CIDs: when a second connection claims an address tuple that a live connection holds (precondition 'distinct tuples' violated), the last claimant keeps the tuple and the older connection does not regain it when the claimant drains - also when the claimant is a server connection whose first packet is rejected inside accept(); the ledger oracle states exactly this",
         "address, token and byte fields are generated inside the ranges on which the hook's encodings are injective (remote < 16384, local < 256, token < 65536)",
     ],
 }
@@ -15,13 +16,13 @@ MANIFEST = {
     "text": ("Component level of C09. Proved in Coq for ALL histories of connect / accept / refuse / ignore / NeedIdentifiers / "
              "RetireConnectionId (any order, allow_more) / ResetToken / Drained / datagrams on one endpoint, with slab slot reuse "
              "and CID lengths 0..20: the routing invariant (C09_reachable_inv) and its consequences index_sound, index_complete, "
-             "cids_disjoint, no_stale_after_drain, new_handle_fresh, route_unique, route_owner. The model covers ConnectionIndex "
+             "cids_disjoint, no_stale_after_drain, new_handle_fresh, route_unique, route_owner, and isolation as a frame theorem (isolation_partial: a step labelled a leaves b's record and CID routes unchanged and gives b no new entry). The model covers ConnectionIndex "
              "(five maps), ConnectionMeta, the connection slab, new_cid, cids_exhausted and the Endpoint call sequences; it is tied "
              "on every run to a REAL quinn-proto Endpoint (driven through connect/handle/accept/refuse/ignore/handle_event with null "
              "crypto and an oracle CID generator) by exact output equality plus an independent ownership-ledger oracle that predicts "
              "every routing result from the history. Two defects of the code were found and repaired by fix: commits (unconditional "
              "removal of tuple/reset-token entries on drain, DESIGN F10; connect() leaking a routed CID when the crypto session fails); "
-             "both are kept as computed counterexamples of the unrepaired model. Not proved: isolation as a frame theorem, "
+             "both are kept as computed counterexamples of the unrepaired model. Not proved: the 'b loses no entry' half of isolation for the initial-DCID / tuple / token maps, "
              "tuple_route completeness under distinct tuples, views_in_step (full statements kept as Definitions)."),
     "note": ("Trusted: Coq kernel + vm_compute; the hand-written model, whose agreement with the code is sampled; the hook (null crypto, "
              "oracle generator, datagram builder); python driver. No axioms. Simulator-level (Layer C) components are added separately."),
